@@ -1,7 +1,7 @@
 from common import *
 
 PROPERTY = "C12"
-QUICK_SAMPLE = 14
+QUICK_SAMPLE = 8
 BE = {"fft64": "poulpy_cpu_ref::FFT64Ref", "ntt120": "poulpy_cpu_ref::NTT120Ref"}
 OPS = ["normalize", "lsh", "rsh", "lsh_assign", "rsh_assign", "rotate_assign", "automorphism_assign", "mul_xp_minus_one_assign", "normalize_assign", "rsh_add_into", "lsh_sub"]
 D = "poulpy-cpu-ref/src/hal_defaults"
